@@ -16,8 +16,10 @@ import (
 // Sim is what a running simulation installs.
 type Sim interface {
 	// Perm returns the permutation to apply to the n canonically ordered keys of a
-	// map range at site (nil = identity). len(result) must be n.
-	Perm(site, n int) []int
+	// map range at site (nil = identity). len(result) must be n. h is a hash of the
+	// canonically ordered keys: decisions are addressed by content, not by how many map
+	// ranges happened before (a cache that copies a map must not shift every later decision).
+	Perm(site, n int, h uint64) []int
 	// Yield is called before every statement of package jen.
 	Yield(site int)
 	// FS is consulted before each intercepted filesystem call. A non-nil error is
@@ -128,9 +130,9 @@ func MapKeys[K comparable, V any](m map[K]V, site int) []K {
 		return keys
 	}
 	MapCallsMulti[site]++
-	canonical(keys)
+	h := canonical(keys)
 	if Cur != nil {
-		p := Cur.Perm(site, len(keys))
+		p := Cur.Perm(site, len(keys), h)
 		if p != nil {
 			if len(p) != len(keys) {
 				panic("simhook: bad permutation length")
@@ -152,10 +154,35 @@ func MapKeys[K comparable, V any](m map[K]V, site int) []K {
 	return keys
 }
 
-func canonical[K comparable](keys []K) {
+func fnv(h uint64, b string) uint64 {
+	for i := 0; i < len(b); i++ {
+		h ^= uint64(b[i])
+		h *= 1099511628211
+	}
+	h ^= 0xff
+	h *= 1099511628211
+	return h
+}
+
+func fnvInt(h uint64, x uint64) uint64 {
+	for i := 0; i < 8; i++ {
+		h ^= x & 0xff
+		h *= 1099511628211
+		x >>= 8
+	}
+	return h
+}
+
+// canonical puts keys into an order that does not depend on the runtime and returns a
+// hash of them in that order.
+func canonical[K comparable](keys []K) uint64 {
+	h := uint64(14695981039346656037)
 	if ks, ok := interface{}(keys).([]string); ok {
 		sort.Strings(ks)
-		return
+		for _, k := range ks {
+			h = fnv(h, k)
+		}
+		return h
 	}
 	var zero K
 	switch reflect.TypeOf(&zero).Elem().Kind() {
@@ -163,17 +190,26 @@ func canonical[K comparable](keys []K) {
 		sort.SliceStable(keys, func(i, j int) bool {
 			return reflect.ValueOf(keys[i]).String() < reflect.ValueOf(keys[j]).String()
 		})
-		return
+		for _, k := range keys {
+			h = fnv(h, reflect.ValueOf(k).String())
+		}
+		return h
 	case reflect.Int, reflect.Int8, reflect.Int16, reflect.Int32, reflect.Int64:
 		sort.SliceStable(keys, func(i, j int) bool {
 			return reflect.ValueOf(keys[i]).Int() < reflect.ValueOf(keys[j]).Int()
 		})
-		return
+		for _, k := range keys {
+			h = fnvInt(h, uint64(reflect.ValueOf(k).Int()))
+		}
+		return h
 	case reflect.Uint, reflect.Uint8, reflect.Uint16, reflect.Uint32, reflect.Uint64, reflect.Uintptr:
 		sort.SliceStable(keys, func(i, j int) bool {
 			return reflect.ValueOf(keys[i]).Uint() < reflect.ValueOf(keys[j]).Uint()
 		})
-		return
+		for _, k := range keys {
+			h = fnvInt(h, reflect.ValueOf(k).Uint())
+		}
+		return h
 	}
 	// registry order
 	idx := make([]int, len(keys))
@@ -183,11 +219,15 @@ func canonical[K comparable](keys []K) {
 		n, ok := KeyIndex[interface{}(k)]
 		if !ok {
 			Uncontrolled++
-			return // leave runtime order; the run is flagged as not replayable
+			return h // leave runtime order; the run is flagged as not replayable
 		}
 		idx[i] = n
 	}
 	sort.Sort(&byIdx[K]{keys, idx})
+	for _, n := range idx {
+		h = fnvInt(h, uint64(n))
+	}
+	return h
 }
 
 type byIdx[K any] struct {
